@@ -265,7 +265,7 @@ Proof.
     + lia.
     + intros w [<-|Hw]; [lia|auto].
     + destruct H3 as [H3|H3]; [|right; now right].
-      destruct (Z.max_spec a0 v) as [[_ E]|[_ E]]; rewrite E in H3; [right; left; now symmetry|now left].
+      destruct (Z.max_spec a0 v) as [[_ E]|[_ E]]; rewrite E in *; [right; left; now symmetry|now left].
 Qed.
 
 (* The summary values of hhea/vhea, for every glyph list:
